@@ -55,9 +55,7 @@ fn main() {
         Tier::Thorough => 3 * 3600,
     });
     // keep panics of the code under test out of the log unless asked for
-    if std::env::var("TCV_PANIC_TRACE").is_err() {
-        std::panic::set_hook(Box::new(|_| {}));
-    }
+    tcv::report::install_panic_recorder();
     let started = Instant::now();
     let out = match props::dispatch(&ctx) {
         Some(o) => o,
